@@ -30,6 +30,7 @@ pub fn profile_c04(rng: &mut Rng) -> GenOpts {
         undefineall: true,
         strings_comments: true,
         sv_cov: true,
+        define_in_body: true,
     }
 }
 
@@ -47,6 +48,7 @@ pub fn profile_c05(rng: &mut Rng) -> GenOpts {
         undefineall: false,
         strings_comments: true,
         sv_cov: false,
+        define_in_body: true,
     }
 }
 
